@@ -1,12 +1,12 @@
 SPECIFICATION Spec
 CONSTANTS
-  Lens <- LensLongQuick
+  Lens <- LensPath
   Modes <- ModesAll
-  KW = 0
-  KR = 0
-  WPats <- WPatsLong
-  RPats <- RPatsLong
-  PathLens <- DefaultPath
+  KW = 1
+  KR = 1
+  WPats <- NoPats
+  RPats <- NoPats
+  PathLens <- PathSweep
   SunPathMax = 107
   QueueCap = 250
   Chunk = 4096
